@@ -1,3 +1,10 @@
 --------------------------------- MODULE MC_Nonce ---------------------------------
 EXTENDS Nonce
+(* ---- non-vacuity: a deliberately wrong design ("reduce an out-of-range candidate instead of rejecting it") must violate *)
+(* NonceIsAcceptedCandidate; bin/check runs MC_Nonce_buggy.cfg and demands exactly that violation                         *)
+ReduceInsteadOfReject ==
+  /\ phase = "sample" /\ tries < MaxTry
+  /\ tries' = tries + 1 /\ draws' = draws + 1 /\ cand' = "ge_n" /\ phase' = "sign" /\ out' = out
+  /\ UNCHANGED <<got, asked, reads, rounds>>
+SpecBuggy == Init /\ [][Next \/ ReduceInsteadOfReject]_vars
 =============================================================================
